@@ -1000,7 +1000,14 @@ def _compile(filename, tree, freevars):
         )
         ast.fix_missing_locations(tree)
 
-    return compile(ast.Module(body=[tree], type_ignores=[]), filename, "exec")
+    code = compile(ast.Module(body=[tree], type_ignores=[]), filename, "exec")
+    # This temporary module only serves to define the new function. Executing
+    # it fires codefind's audit hook, which registers the module's top-level
+    # definitions under the module code's file name: give it a name of its
+    # own (the function's code keeps the real one), otherwise the function
+    # being instrumented -- a method, a nested function -- would take over
+    # the registry path of the top-level function with the same name.
+    return code.replace(co_filename=f"<ptera:{filename}>")
 
 
 def _standard_info():
@@ -1160,7 +1167,20 @@ def transform(fn, proceed, to_instrument=True, set_conformer=True):
         from codefind import code_registry
 
         co = fn.__code__
-        code_registry.assimilate(co, (co.co_filename,))
+        qualpath = [
+            part
+            for part in getattr(fn, "__qualname__", fname).split(".")[:-1]
+            if part != "<locals>"
+        ]
+        if (co.co_filename, *qualpath, co.co_name, None) not in (
+            code_registry.currcodes
+        ):
+            # Only register code the registry has not seen, under its
+            # qualified path: re-registering would point the paths of this
+            # function and of the functions nested in it back to their
+            # original code, even if a probe currently has other code
+            # installed on them
+            code_registry.assimilate(co, (co.co_filename, *qualpath))
     except ImportError:  # pragma: no cover
         pass
 
